@@ -100,6 +100,9 @@ def to_world(sc):
     w = {"conns": conns, "run": run, "callbacks": ["open", "reconnect", "message", "data", "error", "close", "ping", "pong"]}
     if sc["userAt"] >= 0:
         w["user"] = [[sc["userAt"] * 1000, "close"]]
+    # every behaviour of the model ends before the scenario's horizon (invariant TimeBounded): a real run that is still
+    # going then is ended by a watchdog close() - and differs from every behaviour of the model
+    w["horizon"] = (sc["horizon"] + 5) * 1000
     return w
 
 
@@ -132,7 +135,10 @@ def replay_behaviours(ctx, pid, r):
     n = 0
     bad = 0
     for key, (sc, logs) in groups.items():
-        got = real_log(sc)
+        try:
+            got = real_log(sc)
+        except Exception as e:      # noqa   (a run the world could not finish: reported like any other difference)
+            got = [["harness", type(e).__name__]]
         gotn = [[float(x) if isinstance(x, (int, float)) and not isinstance(x, bool) else x for x in item] for item in got]
         n += 1
         if gotn not in logs:
